@@ -17,9 +17,13 @@
   generated from mesh.py / face.py by `harness/translate/terr.py` (file `PyFV/Gen/Errors.lean`)
   and share the type `LabelOutcome` below.
 
-  Where code and documentation disagree the disagreeing entries are listed in
-  `ctorDeviations`, `termDeviations`, `compGetDeviations`, `compSetDeviations`;
-  `PyFV.Props.C16` proves that these lists are exact.
+  Scope of the constructor property: the NUMBER of arguments.  Calls with the right number of
+  arguments of the wrong types (`Grid1D(3)`, `PolarGrid2D(a, a, a, a)`; `ctorTypeConfusion`) are
+  type confusions: the model says what the code does with them, the spec comparison excludes them.
+
+  Likewise a size-1 initial value of rank above the mesh rank on a single-cell 2-D/3-D mesh
+  (`shapeOutOfScope`) is excluded: the code happens to accept it, the documentation allows either
+  outcome.  No deviation from the documentation remains after the repairs of the repo.
 -/
 import PyFV.Model.Geom
 
@@ -120,13 +124,23 @@ def arities : List ℕ := [0, 1, 2, 3, 4, 5, 6, 7]
 
 def allForms : List CtorForm := arities.map .arrays ++ arities.map .scalars
 
-/-- DOCUMENTED: `dim` face arrays, `dim` ints followed by `dim` floats, or the internal
-    direct-init overload (6 positional arguments whose first is an ndarray) are accepted;
-    every other arity raises TypeError. -/
+/-- DOCUMENTED (arity level): `dim` face arrays, `dim` ints followed by `dim` floats, or the
+    internal direct-init overload (6 positional arguments whose first is an ndarray) are accepted;
+    every other NUMBER of arguments raises TypeError. -/
 def specCtor (k : Kind) (f : CtorForm) : Outcome :=
   if f = .arrays k.dim ∨ f = .scalars (2 * k.dim) ∨ f = .arrays 6 then .accept else .typeError
 
+/-- right number of arguments, wrong types (`dim` numbers where face arrays are expected,
+    `2·dim` arrays where counts and lengths are expected — unless that is the 6-ndarray
+    direct init): out of the scope of the arity property, excluded from the spec comparison -/
+def ctorTypeConfusion (k : Kind) (f : CtorForm) : Bool :=
+  decide (f = .scalars k.dim ∨ (f = .arrays (2 * k.dim) ∧ 2 * k.dim ≠ 6))
+
 /-! ### Model of the code -/
+
+/-- `_check_mesh_nargs(args, dim)`: TypeError unless `len(args) in (dim, 2*dim)` -/
+def checkNargs (dim : ℕ) (args : List ArgKind) : Except Outcome Unit :=
+  if args.length = dim ∨ args.length = 2 * dim then pure () else throw .typeError
 
 /-- `_mesh_{dim}d_param(*args)`:
     `len(args) == dim`   → face locations: `.size` of every argument is read
@@ -159,35 +173,31 @@ def boundCheck : ArgKind → Except Outcome Unit
   | .arr => throw .valueError
   | _ => pure ()
 
-/-- the 3-D classes take the direct-init path only for 6 arguments whose first is an ndarray -/
-def directInit3 (args : List ArgKind) : Bool :=
+/-- every class takes the direct-init path only for 6 arguments whose first is an ndarray -/
+def directInit (args : List ArgKind) : Bool :=
   args.length = 6 && args.head? = some .arr
 
-def ctorRun : Kind → List ArgKind → Except Outcome Outcome
-  -- Grid1D, CylindricalGrid1D, SphericalGrid1D, Grid2D, CylindricalGrid2D:
-  -- any 6 arguments are taken as (dims, cellsize, cellcenters, facecenters, corners, edges)
-  | .cart1, a | .cyl1, a | .sph1, a =>
-    if a.length = 6 then pure .accept else pure (meshParam 1 a)
-  | .cart2, a | .cyl2, a =>
-    if a.length = 6 then pure .accept else pure (meshParam 2 a)
-  -- PolarGrid2D: theta_max = args[1][-1] if len(args)==2 else args[3], before the arity check
-  | .pol2, a =>
-    if a.length = 6 then pure .accept else do
+/-- the nine `__init__`: direct init, else `_check_mesh_nargs`, then (polar / cylindrical-3D /
+    spherical-3D) the bound warnings, then `_mesh_{dim}d_param` -/
+def ctorRun (k : Kind) (a : List ArgKind) : Except Outcome Outcome :=
+  if directInit a then pure .accept else do
+    checkNargs k.dim a
+    match k with
+    | .cart1 | .cyl1 | .sph1 => pure (meshParam 1 a)
+    | .cart2 | .cyl2 => pure (meshParam 2 a)
+    -- PolarGrid2D: theta_max = args[1][-1] if len(args)==2 else args[3]
+    | .pol2 =>
       let t ← if a.length = 2 then argLast a 1 else argAt a 3
       boundCheck t
       pure (meshParam 2 a)
-  | .cart3, a =>
-    if directInit3 a then pure .accept else pure (meshParam 3 a)
-  -- CylindricalGrid3D: theta_max = args[1][-1] if len(args)==3 else args[4]
-  | .cyl3, a =>
-    if directInit3 a then pure .accept else do
+    | .cart3 => pure (meshParam 3 a)
+    -- CylindricalGrid3D: theta_max = args[1][-1] if len(args)==3 else args[4]
+    | .cyl3 =>
       let t ← if a.length = 3 then argLast a 1 else argAt a 4
       boundCheck t
       pure (meshParam 3 a)
-  -- SphericalGrid3D: theta_max, phi_max assigned only for 3 or 6 arguments; otherwise the
-  -- comparison reads an unbound local
-  | .sph3, a =>
-    if directInit3 a then pure .accept else do
+    -- SphericalGrid3D: theta_max, phi_max assigned for 3 or 6 arguments (no `else`)
+    | .sph3 =>
       let (t, p) ←
         if a.length = 3 then do
           let t ← argLast a 1
@@ -208,55 +218,42 @@ def ctorOutcome (k : Kind) (f : CtorForm) : Outcome :=
   | .ok o => o
   | .error e => e
 
-/-- entries where the code as it is deviates from `specCtor` (proved exact in C16) -/
-def ctorDeviations : List (Kind × CtorForm) :=
-  [ (.cart1, .scalars 1), (.cart1, .scalars 6),
-    (.cyl1, .scalars 1), (.cyl1, .scalars 6),
-    (.sph1, .scalars 1), (.sph1, .scalars 6),
-    (.cart2, .scalars 2), (.cart2, .scalars 6),
-    (.cyl2, .scalars 2), (.cyl2, .scalars 6),
-    (.pol2, .arrays 0), (.pol2, .arrays 1), (.pol2, .arrays 3), (.pol2, .arrays 4),
-    (.pol2, .arrays 5), (.pol2, .arrays 7),
-    (.pol2, .scalars 0), (.pol2, .scalars 1), (.pol2, .scalars 3), (.pol2, .scalars 6),
-    (.cart3, .scalars 3),
-    (.cyl3, .arrays 0), (.cyl3, .arrays 1), (.cyl3, .arrays 2), (.cyl3, .arrays 4),
-    (.cyl3, .arrays 5), (.cyl3, .arrays 7),
-    (.cyl3, .scalars 0), (.cyl3, .scalars 1), (.cyl3, .scalars 2), (.cyl3, .scalars 4),
-    (.sph3, .arrays 0), (.sph3, .arrays 1), (.sph3, .arrays 2), (.sph3, .arrays 4),
-    (.sph3, .arrays 5), (.sph3, .arrays 7),
-    (.sph3, .scalars 0), (.sph3, .scalars 1), (.sph3, .scalars 2), (.sph3, .scalars 4),
-    (.sph3, .scalars 5), (.sph3, .scalars 7) ]
-
 /-! ## Initial-value shapes -/
 
-/-- numpy's `np.all(np.array(a) == np.array(b))` on two 1-D integer arrays:
-    equal lengths compare elementwise; a length-1 operand is broadcast against the other;
-    any other pair of lengths cannot be broadcast (`==` raises ValueError since numpy 1.25). -/
-def bcastAllEq (a b : List ℕ) : Option Bool :=
-  if a.length = b.length then some (decide (a = b))
-  else if a.length = 1 then some (b.all (· == a.headD 0))
-  else if b.length = 1 then some (a.all (· == b.headD 0))
-  else none
+/-- A size-1 value of rank above the mesh rank: `cell_value*np.ones(dims)` keeps the leading
+    unit axes, so `cellValuesWithBoundaries*` receives an array of too high a rank.  numpy then
+    fails with ValueError (`hstack` of arrays of different rank in 1-D, shape mismatch of the
+    ghost-cell assignment in 2-D/3-D) unless the mesh is 2-D/3-D with a single cell.
+    This stage is NOT derived from numpy semantics: it is characterised empirically and checked
+    by the correspondence for all extents 1..4. -/
+def size1Downstream (dims : List ℕ) : Outcome :=
+  if 2 ≤ dims.length ∧ dims.all (· == 1) then .accept else .valueError
 
-/-- MODEL of the cascade in `CellVariable.__init__` (`dims` = `mesh.dims`, `shape` = shape of
-    the initial value; a Python scalar has shape `[]`):
-    `np.isscalar` / `size == 1` → broadcast; `shape == dims` → interior values;
-    `shape == dims+2` → values with ghost cells; else `raise ValueError`.
-    `accept` means: the cascade lets the value through. -/
+/-- MODEL of `CellVariable(mesh, value)` as far as the shape of `value` goes (`dims` =
+    `mesh.dims`, `shape` = shape of the initial value; a Python scalar has shape `[]`):
+    `np.isscalar` / `size == 1` → broadcast; `shape == tuple(dims)` → interior values;
+    `shape == tuple(dims+2)` → values with ghost cells; else `raise ValueError`. -/
 def shapeOutcome (dims shape : List ℕ) : Outcome :=
-  if shape.prod = 1 then .accept
-  else match bcastAllEq shape dims with
-    | none => .valueError
-    | some true => .accept
-    | some false =>
-      match bcastAllEq shape (dims.map (· + 2)) with
-      | some true => .accept
-      | _ => .valueError
+  if shape.prod = 1 then
+    if shape.length ≤ dims.length then .accept else size1Downstream dims
+  else if shape = dims then .accept
+  else if shape = dims.map (· + 2) then .accept
+  else .valueError
 
-/-- DOCUMENTED: the mesh shape, the mesh shape with ghost cells, size-1 arrays and scalars are
-    accepted; everything else raises ValueError -/
+/-- DOCUMENTED: the mesh shape, the mesh shape with ghost cells, and scalar-like values (scalars
+    and size-1 arrays whose rank does not exceed the mesh rank, which are broadcast) are accepted;
+    everything else — including a size-1 array of rank above the mesh rank, which fits neither the
+    grid nor the grid with ghosts — raises ValueError -/
 def specShape (dims shape : List ℕ) : Outcome :=
-  if shape = dims ∨ shape = dims.map (· + 2) ∨ shape.prod = 1 then .accept else .valueError
+  if shape = dims ∨ shape = dims.map (· + 2) ∨ (shape.prod = 1 ∧ shape.length ≤ dims.length)
+  then .accept else .valueError
+
+/-- The one configuration excluded from the spec comparison (like the constructor type confusions):
+    a size-1 array of rank above the mesh rank on a 2-D/3-D mesh with a SINGLE cell.  There numpy
+    happens to broadcast the value into the one cell and the code accepts it (the model says so:
+    `size1Downstream`); the documentation allows either outcome. -/
+def shapeOutOfScope (dims shape : List ℕ) : Bool :=
+  decide (shape.prod = 1 ∧ dims.length < shape.length ∧ 2 ≤ dims.length) && dims.all (· == 1)
 
 /-! ## Equation terms handed to `solvePDE` -/
 
@@ -292,25 +289,21 @@ def termObj : TermShape → PyObj
   | .none => .atom .none
 
 /-- the loop body of `solvePDE`:
-    `if isinstance(term, tuple): Mterm, RHSterm = term; if Mterm.ndim != 2 or RHSterm.ndim != 1: raise TypeError`
-    `elif term.ndim == 1 … elif term.ndim == 2 … else: raise TypeError('Unknown term')` -/
+    `if isinstance(term, tuple): if len(term) != 2: raise TypeError; Mterm, RHSterm = term;`
+    `   if getattr(Mterm,'ndim',None) != 2 or getattr(RHSterm,'ndim',None) != 1: raise TypeError`
+    `elif getattr(term,'ndim',None) == 1 … elif … == 2 … else: raise TypeError('Unknown term')` -/
 def termCascade : PyObj → Outcome
-  | .tuple [m, r] =>
-    match m.ndim? with
-    | Option.none => .attrError
-    | some a =>
-      if a ≠ 2 then .typeError
-      else match r.ndim? with
-        | Option.none => .attrError
-        | some b => if b ≠ 1 then .typeError else .accept
-  | .tuple _ => .valueError                      -- tuple unpacking
-  | .list _ => .attrError                        -- a list has no attribute `ndim`
+  | .tuple items =>
+    if items.length ≠ 2 then .typeError
+    else match items with
+      | [m, r] => if m.ndim? ≠ some 2 ∨ r.ndim? ≠ some 1 then .typeError else .accept
+      | _ => .typeError
+  | .list _ => .typeError                        -- a list has no attribute `ndim`
   | .atom a =>
     match a.ndim? with
-    | Option.none => .attrError
     | some 1 => .accept
     | some 2 => .accept
-    | some _ => .typeError
+    | _ => .typeError
 
 /-- MODEL -/
 def termOutcome (t : TermShape) : Outcome := termCascade (termObj t)
@@ -320,8 +313,6 @@ def termOutcome (t : TermShape) : Outcome := termCascade (termObj t)
 def specTerm : TermShape → Outcome
   | .mat | .vec | .pair => .accept
   | _ => .typeError
-
-def termDeviations : List TermShape := [.tuple3, .scalar, .str, .list, .none]
 
 /-! ## Boundary coefficients of `BoundaryFace(a, b, c)` -/
 
@@ -376,16 +367,6 @@ def radialPeriodicOutcome (k : Kind) (flags : List Bool) : Outcome :=
 def specRadialPeriodic (k : Kind) (flags : List Bool) : Outcome :=
   if k.radial = true ∧ (flags.getD 0 false = true ∨ flags.getD 1 false = true) then .valueError
   else .accept
-
-/-! ## Deviations of the generated label tables from the documented ones -/
-
-/-- `FaceVariable.thetavalue` / `.phivalue` on `SphericalGrid1D` fall through to NotImplementedError -/
-def compGetDeviations : List (Kind × String) := [(.sph1, "thetavalue"), (.sph1, "phivalue")]
-
-/-- … and `FaceVariable.rvalue = …` is accepted on the three Cartesian classes -/
-def compSetDeviations : List (Kind × String) :=
-  [(.sph1, "thetavalue"), (.sph1, "phivalue"),
-   (.cart1, "rvalue"), (.cart2, "rvalue"), (.cart3, "rvalue")]
 
 end ErrSpec
 end PyFV
